@@ -236,6 +236,12 @@ impl Runtime {
                 // run the hook events
                 e.run_hooks(&ctx)
                     .unwrap_or_else(|err| error!("scher.initialize hooks={}", err));
+                // a hook (catch) may have moved the task on: keep the store in step
+                if e.state() != state {
+                    cache
+                        .upsert(e)
+                        .unwrap_or_else(|err| error!("scher.initialize upsert={}", err));
+                }
 
                 // check task is allowed to emit message to client
                 // a hook (catch) may have moved the task on: the new state is reported by its own event
